@@ -14,12 +14,30 @@ type Node struct {
 	Kind string   `json:"kind,omitempty"` // "arr" | "obj"
 	Keys []string `json:"keys,omitempty"` // obj: names in keyStrs, insertion order
 	Kids []*Node  `json:"kids,omitempty"` // arr: nil = hole
+	// Share != 0: all nodes of a tree with the same Share are ONE object (the same identity reachable through
+	// several paths - a DAG). The first occurrence in pre-order defines the content.
+	Share int `json:"share,omitempty"`
 }
 
 func leafNode(name string) *Node { return &Node{Leaf: name} }
 
-// build makes a fresh model value.
-func (n *Node) build() jm.Value {
+// build makes a fresh model value (shared nodes become one model object).
+func (n *Node) build() jm.Value { return n.buildMemo(map[int]jm.Value{}) }
+
+func (n *Node) buildMemo(memo map[int]jm.Value) jm.Value {
+	if n.Share != 0 {
+		if v, ok := memo[n.Share]; ok {
+			return v
+		}
+	}
+	v := n.build1(memo)
+	if n.Share != 0 {
+		memo[n.Share] = v
+	}
+	return v
+}
+
+func (n *Node) build1(memo map[int]jm.Value) jm.Value {
 	switch n.Kind {
 	case "":
 		it := find(leavesFull, n.Leaf)
@@ -31,7 +49,7 @@ func (n *Node) build() jm.Value {
 		a := jm.NewArray()
 		for i, k := range n.Kids {
 			if k != nil {
-				a.CreateDataProperty(jm.S(strconv.Itoa(i)), k.build())
+				a.CreateDataProperty(jm.S(strconv.Itoa(i)), k.buildMemo(memo))
 			}
 		}
 		a.Length = uint32(len(n.Kids))
@@ -39,23 +57,38 @@ func (n *Node) build() jm.Value {
 	}
 	o := jm.NewObject()
 	for i, k := range n.Kids {
-		o.CreateDataProperty(keyStrs[n.Keys[i]], k.build())
+		o.CreateDataProperty(keyStrs[n.Keys[i]], k.buildMemo(memo))
 	}
 	return jm.Obj(o)
 }
 
-// String is a compact rendering used in signatures and samples.
-func (n *Node) String() string {
+// String is a compact rendering used in signatures and samples; a shared node is written #id=<content> where
+// it first occurs and #id afterwards.
+func (n *Node) String() string { return n.str(map[int]bool{}) }
+
+func (n *Node) str(seen map[int]bool) string {
 	if n == nil {
 		return ""
 	}
+	if n.Share != 0 {
+		tag := "#" + strconv.Itoa(n.Share)
+		if seen[n.Share] {
+			return tag
+		}
+		seen[n.Share] = true
+		return tag + "=" + n.str1(seen)
+	}
+	return n.str1(seen)
+}
+
+func (n *Node) str1(seen map[int]bool) string {
 	switch n.Kind {
 	case "":
 		return n.Leaf
 	case "arr":
 		parts := make([]string, len(n.Kids))
 		for i, k := range n.Kids {
-			parts[i] = k.String()
+			parts[i] = k.str(seen)
 		}
 		s := "[" + strings.Join(parts, ",")
 		if len(n.Kids) > 0 && n.Kids[len(n.Kids)-1] == nil {
@@ -65,7 +98,7 @@ func (n *Node) String() string {
 	}
 	parts := make([]string, len(n.Kids))
 	for i, k := range n.Kids {
-		parts[i] = strconv.Quote(n.Keys[i]) + ":" + k.String()
+		parts[i] = strconv.Quote(n.Keys[i]) + ":" + k.str(seen)
 	}
 	return "{" + strings.Join(parts, ",") + "}"
 }
@@ -74,7 +107,7 @@ func (n *Node) clone() *Node {
 	if n == nil {
 		return nil
 	}
-	c := &Node{Leaf: n.Leaf, Kind: n.Kind, Keys: append([]string(nil), n.Keys...)}
+	c := &Node{Leaf: n.Leaf, Kind: n.Kind, Keys: append([]string(nil), n.Keys...), Share: n.Share}
 	for _, k := range n.Kids {
 		c.Kids = append(c.Kids, k.clone())
 	}
@@ -99,6 +132,9 @@ func (n *Node) kinds(set map[string]bool) {
 	if n == nil {
 		set["hole"] = true
 		return
+	}
+	if n.Share != 0 {
+		set["shared"] = true
 	}
 	switch n.Kind {
 	case "":
